@@ -600,9 +600,10 @@ theorem C08_timespan_err (m : Mgr) (v : V) (e : String) (h : convert m v .long =
     calcFn m "TimeSpan" [v] = .err e := by
   simp [calcFn, withLong, h, R.bind]
 
-/-- one argument: Unix seconds -/
+/-- one argument: Unix seconds (`unixSec` is the identity below 2^63 - 62135596800 and records the host's
+wrap-around of the stored seconds above it, see `C07.unixSec_eq`) -/
 theorem C08_date_seconds (m : Mgr) (v : V) (x : Int64) (h : convert m v .long = .ok (.long x)) :
-    calcFn m "Date" [v] = .ok (.dateTime x.toInt 0) := by
+    calcFn m "Date" [v] = .ok (.dateTime (unixSec x) 0) := by
   simp [calcFn, withLong, h, R.bind]
 
 theorem C08_date_err (m : Mgr) (v : V) (e : String) (h : convert m v .long = .err e) :
